@@ -724,6 +724,9 @@ func (e *Engine) sleepers() bool { return false }
 
 func (r *SvcRun) noteState() {
 	st := r.E.Svc.VerifQueueState()
+	if st.Busy {
+		return
+	}
 	k := fmt.Sprintf("s%d/n%v/q%d/r%d/p%d", st.State, st.QueueNil, st.QueueLen, st.Registered, st.PendingTotal)
 	r.States[k] = true
 }
@@ -740,6 +743,9 @@ func (r *SvcRun) classifyHang(serve, life *sched.Task) string {
 		what = "actors never finished"
 	}
 	sig := fmt.Sprintf("state=%d queueNil=%v queueLen=%d", st.State, st.QueueNil, st.QueueLen)
+	if st.Busy {
+		sig = "the service lock is held by a parked goroutine"
+	}
 	return what + "; " + sig
 }
 
@@ -814,7 +820,7 @@ func (e *Engine) HookObserver2(point, arg string) {
 	case "runWith.afterAppend":
 		e.Sim.Probe("enqueue onto the registered work item of a busy group")
 	case "worker.wake":
-		if e.Svc != nil && e.Svc.VerifQueueState().QueueNil {
+		if e.Svc != nil && !e.Svc.VerifQueueState().Busy && e.Svc.VerifQueueState().QueueNil {
 			e.Sim.Probe("worker woke to a nil queue (closing)")
 		}
 	case "close.beforeLock":
